@@ -60,6 +60,9 @@ def enum_names(ctx: Ctx, rng: random.Random) -> List[str]:
         nm = '.'.join(labels) + suffix
         names[nm] = None
         names['a' * (total - len(suffix)) + suffix] = None
+        # non-strict mode allows long service labels: otherwise valid names of exactly 255 / 256 / 257 characters
+        names['i' * 63 + '._' + 'a' * (total - 64 - 2 - 11) + '._tcp.local.'] = None
+        names['_' + 'a' * (total - 1 - 12) + '._udp.local.'] = None
     return list(names)
 
 
